@@ -354,7 +354,7 @@ class Folder(FileSystemItemABC):
 
         if self.scan_countdown <= 0:
             # scan one file per timestep
-            self.scan_countdown = self.scan_duration
+            self.scan_countdown = max(self.scan_duration, 1)
             self.sys_log.info(f"Scanning folder {self.name} (id: {self.uuid})")
         else:
             # scan already in progress
@@ -451,7 +451,7 @@ class Folder(FileSystemItemABC):
             self.deleted = False
 
         if self.restore_countdown <= 0:
-            self.restore_countdown = self.restore_duration
+            self.restore_countdown = max(self.restore_duration, 1)
             self.health_status = FileSystemItemHealthStatus.RESTORING
             self.sys_log.info(f"Restoring folder: {self.name} (id: {self.uuid})")
         else:
